@@ -458,6 +458,13 @@ func extToLower(upper bool) extFn {
 			// symbolic byte: the model is exact for ASCII only
 			ascii := ts.Cmp(OUlt, b, ts.BV(8, 0x80))
 			if !in.branch(ascii, nil) {
+				if in.path != nil && in.path.Loose {
+					// totality checks: leave a symbolic non-ASCII byte as it is (case mapping
+					// never panics; its result only feeds comparisons with ASCII words)
+					out = append(out, b)
+					i++
+					continue
+				}
 				in.unsupported("strings.ToLower/ToUpper on symbolic non-ASCII byte")
 			}
 			lo, hi, d := uint64('A'), uint64('Z'), uint64(32)
@@ -1019,6 +1026,13 @@ func extSprint(in *Interp, fr *frame, fn *ssa.Function, args []Value) Value {
 
 func extRegexpCompile(must bool) extFn {
 	return func(in *Interp, fr *frame, fn *ssa.Function, args []Value) Value {
+		if s := args[0].(Str); s.B != nil && in.path != nil && in.path.Loose {
+			// totality checks: a pattern with symbolic characters either compiles or is rejected
+			if in.choice(2, "loose-regexp") == 0 {
+				return looseResult(in, fr, must, &Native{V: regexp.MustCompile("placeholder")}, nil)
+			}
+			return looseResult(in, fr, must, nil, in.mkError(Str{Opq: true}))
+		}
 		pat := in.goString(args[0], "regexp.Compile")
 		re, err := regexp.Compile(pat)
 		if must {
@@ -1032,6 +1046,19 @@ func extRegexpCompile(must bool) extFn {
 		}
 		return Tuple{&Native{V: re}, Iface{}}
 	}
+}
+
+func looseResult(in *Interp, fr *frame, must bool, re *Native, err Value) Value {
+	if must {
+		if re == nil {
+			in.goPanic(fr, Str{S: "regexp: Compile: error"}, "regexp: Compile(symbolic pattern): error")
+		}
+		return re
+	}
+	if re == nil {
+		return Tuple{(*Value)(nil), err}
+	}
+	return Tuple{re, Iface{}}
 }
 
 func (in *Interp) regexpOf(fr *frame, v Value) *regexp.Regexp {
@@ -1254,7 +1281,15 @@ func (in *Interp) registerExt() {
 		v, e := in.parseDecimal(fr, s, false, bits, "ParseUint")
 		return Tuple{v, e}
 	})
-	reg("strconv.ParseFloat", nativeFn(strconv.ParseFloat))
+	reg("strconv.ParseFloat", symOr(nativeFn(strconv.ParseFloat), func(in *Interp, fr *frame, fn *ssa.Function, args []Value) Value {
+		if in.path == nil || !in.path.Loose {
+			in.unsupported("symbolic string passed to strconv.ParseFloat")
+		}
+		if in.choice(2, "loose-parsefloat") == 0 {
+			return Tuple{in.ts.F64(1.5), Iface{}} // placeholder value: only totality is claimed in this mode
+		}
+		return Tuple{in.ts.F64(0), in.mkError(Str{Opq: true})}
+	}))
 	reg("strconv.FormatFloat", nativeFn(strconv.FormatFloat))
 	reg("strconv.Quote", nativeFn(strconv.Quote))
 	reg("strconv.ParseBool", nativeFn(strconv.ParseBool))
